@@ -335,7 +335,8 @@ class Check:
     ) -> TLCResult:
         """Run an exhaustive TLC config; an invariant violation of the *design* is
         reported as a violation of the property (key = key or 'design:<inv>')."""
-        res = run_tlc(module, cfg_text, tag=f"{self.prop}-{tag}", coverage=True, **kw)
+        cov = kw.pop("coverage", True)
+        res = run_tlc(module, cfg_text, tag=f"{self.prop}-{tag}", coverage=cov, **kw)
         self.states += res.distinct
         self.transitions += res.generated
         rec = {
